@@ -4,9 +4,18 @@ use crate::monitor::event::EventType;
 use crate::monitor::MonitorConfig;
 use crate::thread::recovery::{PanicMarker, RecoveryThread};
 
+#[cfg(not(humphrey_verif))]
 use std::sync::mpsc::{channel, Receiver, Sender};
+#[cfg(humphrey_verif)]
+use crate::verif::sync::mpsc::{channel, Receiver, Sender};
+#[cfg(not(humphrey_verif))]
 use std::sync::{Arc, Mutex};
+#[cfg(humphrey_verif)]
+use crate::verif::sync::{Arc, Mutex};
+#[cfg(not(humphrey_verif))]
 use std::thread::{Builder, JoinHandle};
+#[cfg(humphrey_verif)]
+use crate::verif::thread::{Builder, JoinHandle};
 use std::time::Instant;
 
 /// The number of milliseconds a task can be waiting in the pool before the pool is considered overloaded.
